@@ -12,11 +12,21 @@ func (srv *Server) Accessories(w http.ResponseWriter, r *http.Request) {
 	case hap.MethodGET:
 		log.Debug.Printf("%v GET /accessories", r.RemoteAddr)
 
+		// The lock is held while the accessories are encoded, not while the
+		// response is written: a controller which stops reading must not
+		// keep the other controllers from being answered.
 		srv.mutex.Lock()
-		if err := WriteJSON(w, r, srv.container); err != nil {
-			log.Info.Println(err)
-		}
+		buf, err := JSONEncode(srv.container)
 		srv.mutex.Unlock()
+
+		if err != nil {
+			log.Info.Println(err)
+			http.Error(w, err.Error(), http.StatusInternalServerError)
+			return
+		}
+
+		wr := hap.NewChunkedWriter(w, 2048)
+		wr.Write(buf.Bytes())
 
 	default:
 		log.Debug.Println("Cannot handle HTTP method", r.Method)
